@@ -384,7 +384,7 @@ def verify(E, c, verbose=False):
             if c.pre_hook:
                 c.pre_hook(E, env)
             for r in c.requires:
-                E.assume(E.as_z3_bool(E.eval_spec(r, env)))
+                E.assume(E.as_z3_bool(E.eval_spec(r, env, E.ghost_env(env))))
             if not E.feasible(z3.BoolVal(True)):
                 raise PathAbort()
             entry = dict(env.locals)
@@ -491,6 +491,10 @@ def verify(E, c, verbose=False):
                 mine.ms += ob.ms
                 mine.backends |= ob.backends
                 rank = {'discharged': 0, 'undecided': 1, 'refuted': 2}
+                if mine.kind == 'cover':
+                    if rank[ob.status] < rank[mine.status]:
+                        mine.status, mine.detail = ob.status, ob.detail
+                    continue
                 if rank[ob.status] > rank[mine.status]:
                     mine.status, mine.model, mine.detail, mine.havoced, mine.path = ob.status, ob.model, ob.detail, ob.havoced, ob.path
         ctl.cleanup()
@@ -499,6 +503,14 @@ def verify(E, c, verbose=False):
         ob = E.obligations[prefix + '::raises_only'] = Obligation(prefix + '::raises_only', 'exc_closure')
         ob.backends.add('path-enumeration')
         ob.detail = 'no exceptional exit on any of %d paths (allowed: %s)' % (res.paths, c.raises)
+    for ci, cut in enumerate(c.cuts):
+        for nm, ex in cut.get('cover', {}).items():
+            oid = '%s::cut_%s.cover.%s' % (prefix, cut.get('name', ci), nm)
+            if oid not in E.obligations:
+                from .engine import Obligation as _Ob
+                ob = E.obligations[oid] = _Ob(oid, 'cover')
+                ob.status = 'undecided'
+                ob.detail = 'cut %s never reached (vacuity guard): %s' % (cut.get('name', ci), ex)
     # declared clauses must exist as obligations (vacuity guard)
     for k in c.ensures:
         oid = '%s::ensures.%s' % (prefix, k)
